@@ -305,3 +305,4 @@ Proof.
             end).
 Qed.
 
+
